@@ -262,8 +262,10 @@ class Run:
             # do not apply to this run; what remains is what the correspondence and the oracle covered
             del ev["coverage"]["discharged"]
             ev["coverage"]["discharged_on_this_tree"] = 0
-        os.makedirs(os.path.join(VERIF, "evidence"), exist_ok=True)
-        with open(os.path.join(VERIF, "evidence", f"{prop}.json"), "w") as f:
+        # runs against a changed tree (tools/try_seed.sh) keep their evidence out of /verif/evidence
+        evdir = os.environ.get("VERIF_SEED_EVIDENCE_DIR") or os.path.join(VERIF, "evidence")
+        os.makedirs(evdir, exist_ok=True)
+        with open(os.path.join(evdir, f"{prop}.json"), "w") as f:
             json.dump(jsonable(ev), f, indent=1)
         for line, _ in violations:
             print(line)
